@@ -63,6 +63,7 @@ def strategy(tier):
     op = st.one_of(st.tuples(st.just("add"), ki), st.tuples(st.just("add"), ki), st.tuples(st.just("add"), ki),
                    st.tuples(st.just("reopen"), loc, st.booleans()),
                    st.tuples(st.just("export"), st.sampled_from(["rel", "abs", "path"]), st.booleans()),
+                   st.tuples(st.just("export_self"), loc, st.booleans()),
                    st.tuples(st.just("clear")), st.tuples(st.just("setcount"), st.integers(0, 60)))
     return st.fixed_dictionaries({
         # 1 case in 16: bit arrays beyond one page / beyond 64 KiB (only the first three operations are run then)
@@ -212,6 +213,22 @@ def replay(case, root, ctx=None, kill_at=None, collect=None):
             targ = os.path.relpath(target, tcwd) if op[1] == "rel" else (Path(target) if op[1] == "path" else target)
             os.chdir(tcwd)
             fn, args, inflight = o.export, (targ,), False
+        elif kind == "export_self":
+            # export() naming the filter's OWN backing file, in any spelling (the relative name it was created with, from another
+            # directory, through a symlink): a no-op or a refusal (shutil.SameFileError) - either way the file stays the live
+            # backing file, which the snapshots of this and of every later operation verify
+            after = before
+            tcwd, targ = W.arg(op[1], op[2])
+            os.chdir(tcwd)
+
+            def fn(t=targ, oo=o):
+                import shutil
+                try:
+                    oo.export(t)
+                except shutil.SameFileError:
+                    feats.add("export_self_refused")
+            args, inflight = (), False
+            feats.add("export_self")
         elif kind == "setcount":
             # the documented setter: the same assignment on the reference filter; the file may keep the old count until the next
             # add / close / export rewrites the footer, from then on it must be the assigned value (+ later adds)
@@ -439,7 +456,7 @@ def run_case(case, ctx):
     thorough = ctx.tier == "thorough"
     want_kill = (case["kill"] <= 2) if thorough else (case["kill"] == 0)
     last_kind = case["ops"][-1][0]
-    do_kill = want_kill and last_kind in ("add", "reopen", "export")
+    do_kill = want_kill and last_kind in ("add", "reopen", "export", "export_self")
     feats, nsnap, digests, geo = replay(case, os.path.join(root, "main"), ctx=ctx, collect=collect if do_kill else None)
     if do_kill and collect:
         idxs = list(range(len(collect)))
